@@ -92,6 +92,7 @@ type mvb struct {
 	markers   int
 	ended     bool // finally ended (no reopen follows)
 	reopens   int
+	uuid      uint64 // branch of the open stream (first failover entry at the time of the request)
 	dirtyGen  int // incremented whenever an acknowledgement / non-document event advances the vBucket
 	savedGen  int // dirtyGen covered by the last successful save
 }
@@ -111,6 +112,10 @@ type session struct {
 	discI  stream.VBucketDiscovery // optional: a real discovery object instead of the fake (C16)
 	metaI  metadata.Metadata       // optional: a real backend (file) instead of the fake store
 	saved  map[uint16]ckTuple      // file backend model: what the last save wrote (whole state)
+	ever       map[uint16]map[ckTuple]bool // every event / start position of a vBucket, across sessions
+	failedOver map[uint16]bool
+	nFailover  int
+	sessions   int
 	fpath  string
 	hand   *fakeHandler
 	st     stream.Stream
@@ -168,7 +173,7 @@ func (s *session) fail(prop, format string, a ...any) {
 func (s *session) label(l string) { s.labels[l] = true }
 
 func newSession(sc *hScenario, oracles ...string) *session {
-	s := &session{sc: sc, srv: map[uint16]*srvVb{}, labels: map[string]bool{}, oracles: map[string]bool{}}
+	s := &session{sc: sc, srv: map[uint16]*srvVb{}, labels: map[string]bool{}, oracles: map[string]bool{}, ever: map[uint16]map[ckTuple]bool{}, failedOver: map[uint16]bool{}}
 	for _, o := range oracles {
 		s.oracles[o] = true
 	}
@@ -240,8 +245,31 @@ func (s *session) openNow() {
 	nOpens := len(s.cl.openLog())
 	s.st.Open()
 	s.buildModel(nOpens)
+	s.sessions++
 	s.settledAtSave = map[uint16]int{}
 	s.genAtSave = map[uint16]int{}
+}
+
+// checkResumeUntorn (C06): a stream requested from a stored checkpoint must be requested from a position that IS some
+// event's own 4-tuple (or a start position of an earlier session) - not a mixture such as one branch's vbUUID with another
+// branch's seqno and snapshot. Without a stored checkpoint the start position is C02's / C15's business.
+func (s *session) checkResumeUntorn(m *mvb) {
+	if s.ever[m.vb] == nil {
+		s.ever[m.vb] = map[ckTuple]bool{}
+	}
+	_, stored := s.meta.snapshot()[m.vb]
+	if s.metaI != nil {
+		_, stored = s.saved[m.vb]
+	}
+	if stored && s.sessions > 0 {
+		if s.failedOver[m.vb] {
+			s.label("reload_after_failover")
+		}
+		if !s.ever[m.vb][m.resume] {
+			s.fail("C06", "vb %d: stream requested from %+v, which is not the position of any event or start of this vBucket (a mixture of two positions / branches)", m.vb, m.resume)
+		}
+	}
+	s.ever[m.vb][m.resume] = true
 }
 
 // buildModel derives the per-vBucket model of a fresh session from the OpenStream calls it made.
@@ -255,6 +283,8 @@ func (s *session) buildModel(nOpens int) {
 		m.maxTuple = m.resume
 		m.lastSent = m.resume.Seq
 		m.tuples[m.resume] = true
+		m.uuid = o.UUID
+		s.checkResumeUntorn(m)
 		if s.metaI != nil {
 			if want := s.saved[o.Vb]; m.resume != want {
 				s.fail("C02", "vb %d: session opened at %+v, the checkpoint last persisted through the file backend is %+v", o.Vb, m.resume, want)
@@ -393,6 +423,8 @@ func (s *session) end(op hOp) {
 			m.sentIdx = sort.Search(len(sv.hist), func(i int) bool { return sv.hist[i].Seq > got.Seq })
 			m.lastSent = got.Seq
 			m.snapValid = false
+			m.uuid = rec.UUID
+			s.ever[m.vb][got] = s.ever[m.vb][got] || m.tuples[got]
 			m.reopens++
 			if m.reopens >= 2 {
 				s.label("vb_ended_twice")
@@ -576,7 +608,28 @@ func (s *session) ackOld(op hOp) {
 	s.checkTracks()
 }
 
-func (s *session) uuidOf(vb uint16) uint64 { return uint64(s.cl.failoverOf(vb)[0].VbUUID) }
+func (s *session) uuidOf(vb uint16) uint64 {
+	if m := s.vbs[vb]; m != nil && m.uuid != 0 {
+		return m.uuid
+	}
+	return uint64(s.cl.failoverOf(vb)[0].VbUUID)
+}
+
+// failover: the server's failover log of a vBucket gets a new newest entry (a new history branch). The open stream
+// stays on its branch; the next stream request of that vBucket is answered on the new one.
+func (s *session) failover(op hOp) {
+	m := s.vbOf(op.Vb)
+	if m == nil {
+		return
+	}
+	s.nFailover++
+	s.cl.mu.Lock()
+	old := s.cl.failoverOf(m.vb)
+	s.cl.failover[m.vb] = append([]gocbcore.FailoverEntry{{VbUUID: gocbcore.VbUUID(0xf0000000 + uint64(s.nFailover)<<16 + uint64(m.vb)), SeqNo: gocbcore.SeqNo(m.lastSent)}}, old...)
+	s.cl.mu.Unlock()
+	s.failedOver[m.vb] = true
+	s.label("failover")
+}
 
 func isDocKind(k string) bool {
 	switch k {
@@ -716,6 +769,7 @@ func (s *session) deliver(op hOp) {
 	ev := &mev{ev: e, settledAt: -1, markerNo: m.markers}
 	ev.tuple = ckTuple{UUID: s.uuidOf(m.vb), Seq: e.Seq, Start: m.snap[0], End: m.snap[1]}
 	m.tuples[ev.tuple] = true
+	s.ever[m.vb][ev.tuple] = true
 	m.all = append(m.all, ev)
 	before := s.cons.count()
 	feedEvent(o, m.vb, e)
@@ -1215,9 +1269,18 @@ func (s *session) crash(op hOp) {
 	first := map[uint16]unsettled{}
 	anyOutstanding := false
 	for vb, m := range s.vbs {
-		if len(m.pending) > 0 {
-			first[vb] = unsettled{seq: m.pending[0].ev.Seq}
-			anyOutstanding = true
+		// an event is identified by its seqno: after a reopen inside the session the same event may have been delivered
+		// twice, and one acknowledgement (of either delivery) settles it
+		done := map[uint64]bool{}
+		for _, e := range m.settled {
+			done[e.ev.Seq] = true
+		}
+		for _, p := range m.pending {
+			if !done[p.ev.Seq] {
+				first[vb] = unsettled{seq: p.ev.Seq}
+				anyOutstanding = true
+				break
+			}
 		}
 	}
 	if anyOutstanding {
@@ -1347,6 +1410,8 @@ func runHistory(sc *hScenario, excludeF1 bool, oracles ...string) (*hViolation, 
 			s.ackOld(op)
 		case "end":
 			s.end(op)
+		case "failover":
+			s.failover(op)
 		}
 		if s.viol != nil || s.stopped {
 			break
